@@ -8,6 +8,8 @@ package mon
 import (
 	"encoding/json"
 	"fmt"
+	"io"
+	"log"
 	"log/slog"
 	"os"
 	"os/exec"
@@ -179,3 +181,5 @@ func init() {
 
 // execCommand is exec.Command (kept in one place so the monitors need not import os/exec each).
 var execCommand = exec.Command
+
+func newLogger(w io.Writer) *log.Logger { return log.New(w, "", 0) }
